@@ -20,7 +20,7 @@ import Rws.Cors
 namespace RwsDriver
 open Rws
 
-def readEnvPair (s : String) : Option (Bytes × Bytes) :=
+private def readEnvPair (s : String) : Option (Bytes × Bytes) :=
   match s.splitOn "=" with
   | [n, v] =>
     match ofHexField n, ofHexField v with
@@ -29,7 +29,7 @@ def readEnvPair (s : String) : Option (Bytes × Bytes) :=
     | _, _ => none
   | _ => none
 
-def readEnv (s : String) : Option (List (Bytes × Bytes)) :=
+private def readEnv (s : String) : Option (List (Bytes × Bytes)) :=
   if s = "_" then some [] else (s.splitOn ",").mapM readEnvPair
 
 def readStrList (s : String) : Option (List Bytes) :=
